@@ -46,6 +46,10 @@ class Domain:
         """False when the rule knows the loop body runs at least once (e.g. range(num_dof), num_dof >= 1)."""
         return True
 
+    def handler_enter(self, handler, state):
+        """States on entry to an `except` handler (iterable); domains that record paths mark the entry."""
+        return (state,)
+
     def while_may_skip(self, node, state):
         """False when the rule knows the body of this `while` runs at least once (a counting loop `k = 0; while k < num_dof`)."""
         return True
@@ -282,7 +286,10 @@ class Flow:
         after.exits.extend(e for e in body_out.exits if e.kind != 'raise')
         if st.handlers:
             for h in st.handlers:
-                o = self.block(h.body, set(inter))
+                entry = set()
+                for s_ in inter:
+                    entry.update(self.dom.handler_enter(h, s_))
+                o = self.block(h.body, entry)
                 after.merge_nonlocal(o)
                 after.fall |= o.fall
             # a bare/`Exception` handler catches explicit raises; otherwise they may propagate too
